@@ -194,16 +194,25 @@ class SymFS:
             def __init__(self, path, *a, **k):
                 self.path = path
 
-            def __enter__(self):
+            lock_file = property(lambda self: self.path)
+            is_locked = property(lambda self: self.path in fs.locks)
+
+            def acquire(self, timeout=None, poll_interval=0.05, **k):
                 if self.path in fs.locks:
                     raise RuntimeError("lock %s already held (single-threaded harness)" % self.path)
                 fs.locks.add(self.path)
                 fs.lock_log.append(("acquire", self.path))
                 return self
 
-            def __exit__(self, *a):
+            def release(self, force=False):
                 fs.locks.discard(self.path)
                 fs.lock_log.append(("release", self.path))
+
+            def __enter__(self):
+                return self.acquire()
+
+            def __exit__(self, *a):
+                self.release()
                 return False
 
         saved_lock = _fl.SoftFileLock
